@@ -85,6 +85,7 @@ def run(ctx):
     G.rule_F8a(ctx, ENTRY, "maps")
     M.rule_F7d_measure_maps(ctx)
     M.rule_backfill_siblings(ctx)
+    M.rule_empty_2d(ctx)
     M.rule_interp_kwargs(ctx)
     M.rule_F4b(ctx)
     rule_codes(ctx)
